@@ -26,6 +26,9 @@ ASSUMPTIONS = [
     "the API client's stream-opening call (<category>_data) may stay pending for any number of loop iterations / any time (model: "
     "HOpening); assumed about the client: a cancelled opening call leaves nothing behind (the receiver is created when the call "
     "returns, as in frequenz-client-microgrid) and cancelling a handler inside the call does not affect the call its replacement makes",
+    "values are opaque tokens in the model: the harness maps every delivered value to a token (integer-valued floats to the integer; "
+    "NaN, +-inf, -0.0, +-denormal, +-largest double to reserved codes, recognised by isnan/copysign, never by ==; a sample WITHOUT a "
+    "value to a code of its own), so `Quantity(nan)` and `None` are different observations; other float values are not generated",
     "liveness is judged at quiescence only: after all injected delays, retries and restarts have elapsed the API sends one more message "
     "per component, which every stream subscribed by then must receive",
     "a send() on a channel its consumer closed (ChannelRegistry.close_and_remove) raises in its own send task only: all send tasks of a "
